@@ -78,9 +78,11 @@ func judgeC20(c CursorCase, o *CursorObs) (*Violation, bool) {
 	// recorded before the terminal state was decided: Close must not lose it
 	if o.ClosedExplicitly && !o.Cancelled && !o.TermAt.IsZero() {
 		for i, f := range o.Fired {
-			if i < len(o.FiredAt) && o.TermAt.Sub(o.FiredAt[i]) > 20*time.Millisecond {
+			if i < len(o.FiredAt) && o.TermAt.Sub(o.FiredAt[i]) > 50*time.Millisecond {
 				if err == nil || !strings.Contains(err.Error(), f) {
-					return violf("store failure %s fired %v before the deliberate Close, but after Close Err()=%v does not report it", f, o.TermAt.Sub(o.FiredAt[i]).Round(time.Millisecond), err), false
+					// the 50 ms are a scheduling allowance for the engine goroutine that
+					// records the failure: a timing verdict, confirmed by re-execution
+					return violf("store failure %s fired %v before the deliberate Close, but after Close Err()=%v does not report it", f, o.TermAt.Sub(o.FiredAt[i]).Round(time.Millisecond), err), true
 				}
 			}
 		}
